@@ -277,6 +277,27 @@ Section MachineProofs.
   Qed.
 End MachineProofs.
 
+(* ------------------------------------------------------------------ only what the argument declares matters *)
+Definition same_decl (a b : option ischema) : Prop :=
+  match a, b with
+  | None, None => True
+  | Some x, Some y => sid x = sid y /\ sfields x = sfields y
+  | _, _ => False
+  end.
+
+Lemma step_same_decl conv w e e' :
+  e_handle e = e_handle e' -> e_recs e = e_recs e' -> e_commit_ok e = e_commit_ok e' ->
+  same_decl (e_arg e) (e_arg e') -> step conv w e = step conv w e'.
+Proof.
+  destruct e as [h a r c], e' as [h' a' r' c']. simpl. intros -> -> -> D.
+  destruct a as [[s f t1]|], a' as [[s' f' t2]|]; simpl in D; try contradiction.
+  - destruct D as [-> ->]. unfold step, resolve, create_arrow_schema. simpl.
+    destruct (w_schema w) as [ts|]; simpl.
+    + destruct (accept_schema (sfields ts) f'); reflexivity.
+    + reflexivity.
+  - reflexivity.
+Qed.
+
 (* ------------------------------------------------------------------ rejected appends leave no trace *)
 (* Holds for every table, with or without a persisted schema, and every conversion oracle. *)
 Section NoTrace.
